@@ -12,8 +12,7 @@ var notApplicable = []naEntry{
 	{"C05", "Correctness of Next/Advance is a relation between runtime cursor values (two roaring cursors and two compressed-stream positions) over arbitrary call histories; no structural clause short of symbolic execution decides it, so static analysis gives no verdict (the wire-arity and length-prefix rules of C01/C04 protect the stream format it relies on but are not a verdict on navigation)."},
 	{"C17", "A metamorphic relation between the outputs of different merge trees: purely a value property over runtime data; its structural ingredients are already those checked under C02/C03/C08, and no static rule in reach decides the equality itself."},
 	{"C01", "check under construction"}, {"C02", "check under construction"},
-	{"C04", "check under construction"}, {"C07", "check under construction"},
-	{"C10", "check under construction"},
+	{"C07", "check under construction"},
 }
 
 func init() {
@@ -141,5 +140,26 @@ func init() {
 		Explanation: "RESET-COMPLETE(interim) over all fields of the builder state; RE-EXTENSION over every s.F = s.F[:n] site of a pooled slice; ESCAPE-FRESH for the fields and bytes that escape into the returned Segment; POOL-DISCIPLINE for interimPool.Put; CARRIED-ESTIMATE shows the only deliberately surviving values reach nothing but a buffer size hint; MAP-ORDER shows every range over a map on the build/merge path has an order-insensitive body; NO-GLOBAL-STATE shows no function reachable from New writes package-level state.",
 		NotCovered:  "byte equality itself; determinism of vellum/roaring/zstd",
 		Uses:        []RuleUse{{"RESET-COMPLETE", ""}, {"RE-EXTENSION", ""}, {"ESCAPE-FRESH", ""}, {"POOL-DISCIPLINE", ""}, {"CARRIED-ESTIMATE", ""}, {"NO-GLOBAL-STATE", ""}, {"MAP-ORDER", ""}},
+	})
+}
+
+func init() {
+	prop(&Property{
+		ID:          "C04",
+		Title:       "Every segment ice writes can be loaded back and reads identically",
+		Technique:   "static analysis: wire-signature extraction (AST + go/types) of every writer/reader pair and their comparison; must-pass-through (SSA dominance) of section emitters against loader guards; adjacency and memory-image def-use checks",
+		Level:       "Static rules deciding agreement clauses for every input: the writer and the reader of each of the 11 on-disk records use the same sequence of primitives (kinds, widths, loop structure, byte order; tail-first trailers reversed), every section the loader parses is present on every writer path or skipped under a condition the loader also tests, layout adjacency assumptions hold, the in-memory image is the written bytes, WriteTo returns data+footer length. Partial: identical ANSWERS after load are a value property.",
+		Explanation: "WIRE-AGREE extracts, from the type-checked AST, the source-ordered sequence of wire primitives (binary.Write/PutUvarint/writeUvarints/PutUintN/raw Write vs binary.Uvarint/UintN/raw Data.Read) of each writer and reader region with loops as nested units and compares the 11 pairs (builder and merger writers must also agree with each other; footer fields must correspond by name; parseFooter's offsets must form a contiguous tail of footerLen bytes with widths matching their decodes). SECTION-PRESENT proves by dominance that load() always runs the three section loaders and that each section is written on every successful path of both data-section writers, or skipped exactly on the zero-document branch the loader also guards. ADJACENCY, MEM-IMAGE and LEN-RETURN pin the implicit layout assumptions, the builder's memory image and the byte counts.",
+		NotCovered:  "identical answers after load (value property); file-backed vs memory-backed look-ahead near the end of data (layout arithmetic)",
+		Uses:        []RuleUse{{"WIRE-AGREE", ""}, {"SECTION-PRESENT", ""}, {"ADJACENCY", ""}, {"MEM-IMAGE", ""}, {"LEN-RETURN", ""}},
+	})
+	prop(&Property{
+		ID:          "C10",
+		Title:       "On-disk format version 2 stays readable across code versions",
+		Technique:   "static analysis: re-extraction of the format table (folded constants at use sites, wire signatures, codec, CRC polynomial, dependency versions) from the current tree and semantic comparison with a golden table extracted from the pinned reference tree",
+		Level:       "Static freeze of the format: every layout-defining constant (by folded value at its use site), every writer's and reader's primitive sequence incl. byte order and carried fields, the codec, the CRC polynomial and the versions of the embedded serialisations equal the pinned reference. Detects symmetric writer+reader changes that round-trip. Partial: arithmetic inside encoders beyond its constants, and roaring/vellum/zstd serialisations (pinned by go.mod, compared) are not analysed.",
+		Explanation: "FMT-CONST compares 27 named format constants, ~35 use-site constants (block size 128 at both coders and the reader's divisor; doc-value chunk arguments (1024,0,0) at three sites; chunk mode 1025 at New/merge; getChunkSize's bounds; bit-level encoder constants; termSeparator 0xff) and the roaring/vellum/compress versions with golden/format_v2.json. FMT-SEQ compares the wire signature of 33 writer/reader functions with the golden ones (this catches symmetric changes WIRE-AGREE accepts by construction). FMT-CODEC pins zstd EncodeAll/DecodeAll as the only codec; CRC-UPDATE pins CRC-32 IEEE. The compression level is reported, not gated (any level is readable by the reference reader).",
+		NotCovered:  "roaring/vellum serialisation internals (versions pinned and compared); the arithmetic of the encoders beyond their constants",
+		Uses:        []RuleUse{{"FMT-CONST", ""}, {"FMT-SEQ", ""}, {"FMT-CODEC", ""}, {"CRC-UPDATE", ""}, {"WIRE-AGREE", ""}},
 	})
 }
